@@ -6,7 +6,7 @@ From Coq Require Import List NArith Bool Arith.
 From Coq Require String.
 From Coq.Strings Require Import Byte.
 Import ListNotations.
-From OV Require Import Base.Bytes Base.Utf8 Model.Edi Proofs.Edi Proofs.EdiRT.
+From OV Require Import Base.Bytes Base.Utf8 Model.Edi Proofs.Edi Proofs.EdiUnits Proofs.EdiRT.
 
 (* ByteIndexWithEsc, for EVERY byte string s, every non-empty delim and every esc (empty or not):
    the result is the first position at which delim occurs without being preceded by an odd run of
@@ -34,11 +34,22 @@ Proof.
   exact (unescape_length b esc o Ho).
 Qed.
 
-(* unescape (escape d) = d for ALL byte strings d: hs are the (ASCII) first bytes of the
-   delimiters and of the release character; the release character may be absent (esc = []). *)
-Theorem unescape_escape : forall hs esc d, Forall ascii_byte hs -> rel_ok hs esc ->
-  unescape (escape hs esc d) esc = Ok d.
-Proof. exact unescape_escape. Qed.
+(* unescape (escape d) = d for ALL byte strings d (valid UTF-8 or not), for the rune-wise encoder
+   and every configuration with cfg_ok: in particular the truncating branch of ByteUnescape is
+   never reached on encoder output. *)
+Theorem unescape_escape : forall c, cfg_ok c -> forall d,
+  unescape (escape (heads (specials c)) (optb (c_rel c)) d) (optb (c_rel c)) = Ok d.
+Proof. exact unescape_E. Qed.
+
+(* the byte-wise encoder: hs are ASCII first bytes of the delimiters and of the release
+   character; the release character may be absent (esc = []) *)
+Theorem unescape_escape_ascii : forall hs esc d, Forall ascii_byte hs -> rel_ok hs esc ->
+  unescape (escape_b hs esc d) esc = Ok d.
+Proof. exact unescape_escape_b. Qed.
+
+(* with ASCII first bytes the two encoders are the same function *)
+Theorem escape_ascii : forall hs rel d, Forall ascii_byte hs -> escape hs rel d = escape_b hs rel d.
+Proof. exact escape_ascii. Qed.
 
 (* runeCountAndHasOnlyCRLF: a token is skipped exactly when all its bytes are CR or LF *)
 Theorem crlf_only_token : forall t, only_crlf t = forallb is_crlf t.
@@ -49,9 +60,10 @@ Proof.
 Qed.
 
 (* edi_roundtrip.  For every delimiter configuration with cfg_ok (delimiters in use and release
-   character: non-empty, first bytes ASCII and pairwise distinct, no first byte at a later
-   position of any of them; with LF as segment delimiter the release character does not end with
-   CR) and all logical segments with segx_ok (shape: >= 1 element, >= 1 repetition, >= 1
+   character: non-empty byte strings -- single- or multi-byte, ASCII or not -- whose first rune
+   utf8.DecodeRune decodes and is not U+FFFD, e.g. any valid UTF-8 string; first bytes pairwise
+   distinct; no first byte at a later position of any of them; with LF as segment delimiter the
+   release character does not end with CR) and all logical segments with segx_ok (shape: >= 1 element, >= 1 repetition, >= 1
    component, exactly one where the delimiter is absent; data arbitrary bytes when there is a
    release character, otherwise free of delimiter first bytes; name non-empty; the CR/LF rules:
    a CR before the delimiter / blank lines only where the rules eat them, the encoded segment
@@ -86,6 +98,27 @@ Theorem edi_full_roundtrip : forall c, cfg_ok c -> forall segs inp sname decls,
   full_read_all c sname decls inp = Ok (exp_full decls (map ls_seg segs)).
 Proof. exact full_roundtrip. Qed.
 
+(* The first version of these theorems (first bytes ASCII, byte-wise encoder) as corollaries. *)
+Theorem cfg_ok_ascii_ok : forall c, cfg_ok_ascii c -> cfg_ok c.
+Proof. exact cfg_ok_ascii_ok. Qed.
+
+Corollary edi_roundtrip_ascii : forall c, cfg_ok_ascii c -> forall segs inp,
+  Forall (segx_ok c) segs ->
+  (if c_ignore_crlf c then strip_crlf inp else inp) = edi_encode c segs ->
+  nv_read_all c inp = Ok (map (fun x => exp_seg c (ls_seg x)) segs) /\
+  forall d, escape (heads (specials c)) (optb (c_rel c)) d = escape_b (heads (specials c)) (optb (c_rel c)) d /\
+            unescape (escape_b (heads (specials c)) (optb (c_rel c)) d) (optb (c_rel c)) = Ok d.
+Proof.
+  intros c Hc segs inp Hs Hin. pose proof (cfg_ok_ascii_ok c Hc) as Hc'.
+  split; [exact (roundtrip c Hc' segs inp Hs Hin)|].
+  intro d. destruct Hc as (_ & _ & _ & Ha & _).
+  rewrite <- (escape_ascii _ _ d Ha). split; [reflexivity|exact (unescape_E c Hc' d)].
+Qed.
+
+Corollary edi_elem_nodes_ascii : forall c, cfg_ok_ascii c -> forall s decls k,
+  seg_to_node (optb (c_rel c)) k decls (exp_elems c 0 s) = Ok (exp_nodes k decls s).
+Proof. intros c Hc. exact (elem_nodes c (cfg_ok_ascii_ok c Hc)). Qed.
+
 (* ---- non-vacuity and the documented corner cases -------------------------------------------- *)
 Local Open Scope string_scope.
 Import String.StringSyntax.
@@ -98,7 +131,7 @@ Proof. split; vm_compute; reflexivity. Qed.
 
 Example unescape_escape_ex :
   rel_ok (hx "7e2a3f") (hx "3f") /\ Forall ascii_byte (hx "7e2a3f") /\
-  escape (hx "7e2a3f") (hx "3f") (hx "613f2a7e") = hx "613f3f3f2a3f7e".
+  escape_b (hx "7e2a3f") (hx "3f") (hx "613f2a7e") = hx "613f3f3f2a3f7e".
 Proof.
   split; [split; [reflexivity|intros b []]|]. split; [|reflexivity].
   repeat constructor.
@@ -126,7 +159,7 @@ Ltac solve_cfg_ok :=
          | |- NoDup _ => constructor
          | |- ~ _ => cbn; intuition discriminate
          | |- Forall _ _ => constructor
-         | |- ascii_byte _ => reflexivity
+         | |- first_rune_ok _ => unfold first_rune_ok; vm_compute; discriminate
          | |- tail_clean _ _ => intros b Hb; cbn in Hb; intuition (subst; reflexivity)
          | |- _ -> _ => intro
          end.
@@ -140,11 +173,6 @@ Proof.
   intros [u Hu]. destruct u as [|a [|b u]]; cbn in Hu; discriminate.
 Qed.
 
-(* segment  A * "a?b*c" : "~" ^ "r2" * ""   -- values containing release, element, component and
-   segment delimiter characters, a repetition, a trailing empty element *)
-Definition seg_ex : lsegx :=
-  mkLS [] [ [[hx "41"]]; [[hx "613f622a63"; hx "7e"]; [hx "7232"]]; [[ [] ]] ] false.
-
 Ltac solve_segx_ok :=
   unfold segx_ok, elem_ok, rep_ok, data_ok; cbn;
   repeat match goal with
@@ -154,6 +182,37 @@ Ltac solve_segx_ok :=
          | |- _ \/ _ => left; discriminate
          | |- _ -> _ => intro
          end.
+
+(* Non-ASCII delimiters: segment "\n", element U+00A6 (2 bytes), component U+20AC (3 bytes),
+   release U+1F600 (4 bytes); the value  a U+20AC U+2192 0xE2 b U+1F600  holds the component
+   delimiter, a rune sharing its first byte with it (escaped too), that first byte alone
+   (undecodable: left as it is) and the release character. *)
+Definition c_utf : cfg := mkCfg (hx "0a") (hx "c2a6") (Some (hx "e282ac")) None (Some (hx "f09f9880")) false.
+
+Example cfg_ok_utf : cfg_ok c_utf.
+Proof.
+  solve_cfg_ok. all: try discriminate.
+  intros [u Hu]. destruct u as [|a0 [|a1 [|a2 [|a3 [|a4 u]]]]]; cbn in Hu; discriminate.
+Qed.
+
+Example edi_roundtrip_utf :
+  let s := mkLS [] [ [[hx "41"]]; [[hx "61e282ace28692e262f09f9880"; hx "c2a6"]] ] false in
+  segx_ok c_utf s /\
+  edi_encode c_utf [s] = hx "41c2a661f09f9880e282acf09f9880e28692e262f09f9880f09f9880e282acf09f9880c2a60a" /\
+  nv_read_all c_utf (edi_encode c_utf [s]) =
+    Ok [SegOk (hx "41") [mkRE 0 1 (hx "41"); mkRE 1 1 (hx "61f09f9880e282acf09f9880e28692e262f09f9880f09f9880"); mkRE 1 2 (hx "f09f9880c2a6")]] /\
+  unescape (hx "61f09f9880e282acf09f9880e28692e262f09f9880f09f9880") (hx "f09f9880") = Ok (hx "61e282ace28692e262f09f9880").
+Proof.
+  split.
+  - solve_segx_ok. all: try discriminate; try reflexivity; try contradiction.
+    exists x41. split; [left; reflexivity|reflexivity].
+  - repeat split; vm_compute; reflexivity.
+Qed.
+
+(* segment  A * "a?b*c" : "~" ^ "r2" * ""   -- values containing release, element, component and
+   segment delimiter characters, a repetition, a trailing empty element *)
+Definition seg_ex : lsegx :=
+  mkLS [] [ [[hx "41"]]; [[hx "613f622a63"; hx "7e"]; [hx "7232"]]; [[ [] ]] ] false.
 
 Example segx_ok_ex : segx_ok c_ex seg_ex.
 Proof. solve_segx_ok. all: try discriminate; try reflexivity; try contradiction. Qed.
